@@ -190,6 +190,8 @@ class Case:
                 L.append("%s %d" % (t, o[1]))
             elif t == "c":
                 L.append("c %d %d" % (o[1], o[2]))
+            elif t == "build":
+                L.append("build 0 " + " ".join("%s %s" % (f, hx(v)) for f, v in o[1]))
             else:
                 raise ValueError(o)
         for s in self.dump:
@@ -221,6 +223,9 @@ class Case:
                 L.append("oK %d" % o[1])
             elif t == "c":
                 L.append("oC %d %d" % (o[1], o[2]))
+            elif t == "build":
+                nm = {"o": "SetOpen", "h": "SetHigh", "l": "SetLow", "c": "SetClose", "v": "SetVolume"}
+                L.append("oU [%s]" % "; ".join("(%s, %s)" % (nm[f], coqf(v)) for f, v in o[1]))
         return "[" + "; ".join(L) + "]"
 
     def coq_exp(self):
@@ -241,7 +246,13 @@ class Case:
         return "[" + "; ".join(L) + "]"
 
     def to_json(self):
-        return {"id": self.cid, "ops": [[(hx(v) if isinstance(v, float) else v) for v in o] for o in self.ops],
+        def enc(v):
+            if isinstance(v, float):
+                return hx(v)
+            if isinstance(v, (list, tuple)):
+                return [enc(x) for x in v]
+            return v
+        return {"id": self.cid, "ops": [[enc(v) for v in o] for o in self.ops],
                 "ops_readable": [" ".join(str(v) for v in o) for o in self.ops], "meta": self.meta}
 
 
@@ -278,6 +289,10 @@ def obs_to_coq(ob):
     if ob[0] == "o":
         v = ob[1]
         return "b%d %s" % (len(v), " ".join(coqf(fbits(b)) for b in v))
+    if ob[0] == "built":
+        return "bB %s" % " ".join(coqf(fbits(b)) for b in ob[1])
+    if ob[0] == "badprobe":
+        return "BDead"   # never equal to what the model observes for a live slot
     if ob[0] == "d":
         _, kind, args, mult, period = ob
         return "bP %s [%s] %s %s" % (
@@ -295,12 +310,15 @@ def parse_obs(line, names):
     t = line.split()
     if not t:
         raise HarnessFormatError(line)
-    if t[0] in ("ok", "dead", "noscalar"):
+    if t[0] in ("dead", "noscalar") or line.strip() == "ok":
         return t[0]
     if t[0] == "panic":
         return "panic"
     if t[0] in ("err", "builderr"):
         return ("err", t[1])
+    if t[0] == "ok" and len(t) > 1:   # builder probe: ok o h l c v clone_eq= serde_eq= ser=
+        kv = dict(x.split("=") for x in t[6:])
+        return ("built", [int(b, 16) for b in t[1:6]], kv)
     if t[0] == "o":
         return ("o", [int(b, 16) for b in t[1:]])
     if t[0] == "d":
@@ -414,7 +432,7 @@ def coq_eval(src, tag, timeout=1200):
 
 
 HEADER = """From Coq Require Import Floats List NArith.
-From TA Require Import Base Model Generic FloatOps Run.
+From TA Require Import Base Model Generic FloatInst Run.
 Import ListNotations.
 Open Scope N_scope.
 """
